@@ -456,6 +456,9 @@ func vPreemptBudget(n int)            {}
 func vTrack(p interface{}, name string) {}
 func vTrackElems(s interface{}, name string) {}
 func vCertPoolSize(p *x509.CertPool) int      { return -1 }
+func vTimePasses()                            {}
+func vIssuedSigners() int                     { return -1 }
+func vIssuedLeaves() int                      { return -1 }
 
 // Run-level environment (listener / accept scripts): engine only.
 func vEnvSet(key string, val bool)              {}
